@@ -549,6 +549,10 @@ func runSites(dir string, seed uint64, tier string) error {
 		}
 		fmt.Printf("STAT {\"control_value_texts\": %d, \"control_value_texts_refused_by_the_pipeline\": %d}\n", len(full), rejected)
 	}
+	// wave 3: members that are links, opened by name through the sections' tarfs
+	if err := tarfsOpenCases(w, r, scale); err != nil {
+		return err
+	}
 	// "!name" constraints through the resolver
 	{
 		ix := apk.NewNamedRepositoryWithIndex("", (&apk.Repository{URI: "/r/x86_64"}).WithIndex(&apk.APKIndex{Packages: []*apk.Package{{Name: "a", Version: "1", Arch: "x86_64"}, {Name: "b", Version: "1", Arch: "x86_64", Dependencies: []string{"!a", "!"}}}}))
